@@ -98,10 +98,14 @@ def main():
         )
         with open(os.path.join(d, "meta.json"), "w") as f:
             json.dump(meta, f, indent=1)
-        rows.append((name, prop, what, ", ".join(meta["caught_by"]) or "-", ", ".join(r["check"] for r in res if not (r["exit"] == 1 and r["violation_lines"] > 0)) or "-"))
-    table = "| seeded change | property | what it does | caught by (exit 1, replayed) | run but not flagged |\n|---|---|---|---|---|\n"
+        meta["inconclusive"] = [r["check"] for r in res if r["exit"] == 2]
+        meta["not_flagged"] = [r["check"] for r in res if r["exit"] == 0]
+        with open(os.path.join(d, "meta.json"), "w") as f:
+            json.dump(meta, f, indent=1)
+        rows.append((name, prop, what, ", ".join(meta["caught_by"]) or "-", ", ".join(meta["inconclusive"]) or "-", ", ".join(meta["not_flagged"]) or "-"))
+    table = "| seeded change | property | what it does | caught by (exit 1, replayed) | inconclusive (exit 2) | passed (exit 0) |\n|---|---|---|---|---|---|\n"
     for r in rows:
-        table += "| %s | %s | %s | %s | %s |\n" % r
+        table += "| %s | %s | %s | %s | %s | %s |\n" % r
     with open(os.path.join(S, "MATRIX.md"), "w") as f:
         f.write(table)
     dp = os.path.join(HERE, "DESIGN.md")
